@@ -691,9 +691,29 @@ func ruleRegistryBracket(c *Ctx, rid string) {
 		c.check(addKey != "" && addKey == remKey, rid, "registry-key", c.P.pos(rem.Pos()), "AddConn and RemoveConn key: "+addKey, fmt.Sprintf("AddConn inserts under %q but RemoveConn deletes %q", addKey, remKey))
 		// the entry goes on every path: no return of RemoveConn is reached without the delete
 		// (the connection loop ignores RemoveConn's result, so an early error return leaks the entry)
-		uncond := mustPassCall(rem, func(cc *ssa.CallCommon) bool {
-			b, ok := cc.Value.(*ssa.Builtin)
-			return ok && b.Name() == "delete"
+		absent := func(b *ssa.BasicBlock) bool {
+			// the entry is known to be absent here: `if _, ok := m[key]; !ok { return }`
+			for _, at := range factsAt(b) {
+				if at.Kind != "val" || at.Pos {
+					continue
+				}
+				if ex, ok := at.X.(*ssa.Extract); ok && ex.Index == 1 {
+					if lk, ok := ex.Tuple.(*ssa.Lookup); ok {
+						if owner, f, _, ok := fieldOf(lk.X); ok && owner == "redis.ConnManager" && f == "m" {
+							return true
+						}
+					}
+				}
+			}
+			return false
+		}
+		uncond := mustPassThrough(rem, func(ins ssa.Instruction) bool {
+			if cc := callCommon(ins); cc != nil {
+				if b, ok := cc.Value.(*ssa.Builtin); ok && b.Name() == "delete" {
+					return true
+				}
+			}
+			return ins == ins.Block().Instrs[0] && absent(ins.Block())
 		})
 		c.check(uncond, rid, "RemoveConn/unconditional", c.P.pos(rem.Pos()), "every path through RemoveConn deletes the entry", "RemoveConn can return without deleting the entry (an early return before the delete): the deferred RemoveConn of the connection loop ignores the result, so the registry keeps a connection that is gone")
 	}
@@ -818,6 +838,8 @@ func runC07(c *Ctx) {
 	ruleNoExit(c, "R07.b")
 	ruleAcceptLoops(c, "R07.c")
 	ruleGoroutineOwnsItsIteration(c, "R07.c")
+	ruleStdlibPreconditions(c, "R07.i")
+	ruleAdmissionBalanced(c, "R07.j")
 	ruleReplyBufferLocal(c, "R07.d")
 	ruleNilNilDeref(c, "R07.e")
 	ruleNoReentrantLock(c, buildSyncModel(c), "R07.f")
@@ -829,6 +851,8 @@ func runC07(c *Ctx) {
 func runC19(c *Ctx) {
 	ruleCloseOnEveryExit(c, "R19.a")
 	ruleGoroutineOwnsItsIteration(c, "R19.a")
+	ruleAdmissionBalanced(c, "R19.i")
+	ruleNoWaitInExecutors(c, "R19.j")
 	ruleRegistryBracket(c, "R19.b")
 	ruleConnKeyUnique(c, "R19.b")
 	ruleAcceptLoops(c, "R19.c")
@@ -1399,4 +1423,54 @@ func derivedFromParam(v ssa.Value, par *ssa.Parameter, d int) bool {
 		return derivedFromParam(x.X, par, d+1)
 	}
 	return false
+}
+
+// ruleStdlibPreconditions: some standard-library functions panic when an argument is not
+// positive (a ticker interval, the bound of rand.Intn) or negative (a repeat count). Where such
+// an argument is computed from configuration or from a client's number, the panic may be raised
+// in a goroutine that has no recover barrier (a background sweep of the example store): the
+// whole process dies, for every client.
+func ruleStdlibPreconditions(c *Ctx, rid string) {
+	c.rule(rid, "every call in production code of time.NewTicker / (*time.Ticker).Reset / time.Tick / math/rand Intn-style functions has its argument proven >= 1, and of strings.Repeat / bytes.Repeat its count proven >= 0, by constant bounds from the dominating tests (A8)")
+	type pre struct {
+		arg int
+		min int64
+	}
+	table := map[string]pre{
+		"time.NewTicker": {0, 1}, "(*time.Ticker).Reset": {1, 1}, "time.Tick": {0, 1},
+		"math/rand.Intn": {0, 1}, "math/rand.Int31n": {0, 1}, "math/rand.Int63n": {0, 1},
+		"(*math/rand.Rand).Intn": {1, 1}, "(*math/rand.Rand).Int31n": {1, 1}, "(*math/rand.Rand).Int63n": {1, 1},
+		"math/rand/v2.IntN": {0, 1}, "math/rand/v2.Int64N": {0, 1}, "math/rand/v2.Int32N": {0, 1},
+		"strings.Repeat": {1, 0}, "bytes.Repeat": {1, 0},
+	}
+	n, bad := 0, 0
+	for _, fn := range c.P.RepoFuncs(modPath) {
+		if !inProd(fn) {
+			continue
+		}
+		allInstrs(fn, func(ins ssa.Instruction) {
+			cc := callCommon(ins)
+			if cc == nil {
+				return
+			}
+			pr, ok := table[calleeName(cc)]
+			if !ok || pr.arg >= len(cc.Args) {
+				return
+			}
+			n++
+			c.analysed(fn)
+			lo, _, hasLo, _ := constBounds(cc.Args[pr.arg], factsAt(ins.Block()), 0)
+			key := fmt.Sprintf("%s/%s#%d", fnName(fn), calleeName(cc), n)
+			if hasLo && lo >= pr.min {
+				c.ok(rid, key, c.P.instrPos(ins), fmt.Sprintf("argument >= %d", lo))
+			} else {
+				bad++
+				c.bad(rid, key, c.P.instrPos(ins), fmt.Sprintf("%s panics unless its argument is >= %d, and no dominating test establishes that: a value a client or the configuration can choose reaches it", calleeName(cc), pr.min))
+			}
+		})
+	}
+	c.count("stdlib-precondition-sites", n)
+	if n == 0 {
+		c.ok(rid, "no-precondition-sites", "", "no call of a standard-library function with a positivity precondition in production code")
+	}
 }
